@@ -522,4 +522,97 @@ theorem computeDefaults_fail (dflt : DfltFn) (c : Cls) : ∀ (attrs : List (Name
         · rw [hd pos] at hdb; cases hdb
         · exact computeDefaults_fail dflt c r p0 a ty h hr hd
 
+/-! ### the function the driver runs is the function the theorems are about -/
+
+/-- `newOne` IS the creation part `Attr.newDict` of the world-level `MetaModel.new` (`Attr.newInstWith`) -/
+theorem newOne_eq_newDict (stream : Nat → Int) (call : Call) (pos : Nat) :
+    newOne stream call pos =
+      ({ dict := (newDict (typedDefault stream) call.cls call.args call.kwargs pos).1.dict,
+         defs := (newDict (typedDefault stream) call.cls call.args call.kwargs pos).2.1,
+         ok := (newDict (typedDefault stream) call.cls call.args call.kwargs pos).2.2.2 },
+       (newDict (typedDefault stream) call.cls call.args call.kwargs pos).2.2.1) := by
+  unfold newOne newDict
+  rcases hcd : computeDefaults (typedDefault stream) call.cls call.cls.attrs pos with ⟨defs, nid, dok⟩
+  cases dok <;> simp
+
+theorem relate_frame (w : World) (i j : Nat) :
+    (Attr.relate w i j).1.insts = w.insts ∧ (Attr.relate w i j).1.nextId = w.nextId := by
+  unfold Attr.relate
+  simp only []
+  repeat' split
+  all_goals exact ⟨rfl, rfl⟩
+
+theorem relateMatches_frame (b : Nat) (tgtKey : Name) (v : Val) : ∀ (l : List Nat) (w : World),
+    (relateMatches w b tgtKey v l).1.insts = w.insts ∧ (relateMatches w b tgtKey v l).1.nextId = w.nextId
+  | [], _ => ⟨rfl, rfl⟩
+  | a :: r, w => by
+    unfold relateMatches
+    cases readVal w a tgtKey with
+    | error e => exact ⟨rfl, rfl⟩
+    | ok x =>
+      simp only
+      by_cases hx : x = v
+      · simp only [hx, ↓reduceIte]
+        have hf := relate_frame w a b
+        cases hr : Attr.relate w a b with
+        | mk w' e =>
+          rw [hr] at hf
+          cases e with
+          | none =>
+            have ih := relateMatches_frame b tgtKey v r w'
+            exact ⟨ih.1.trans hf.1, ih.2.trans hf.2⟩
+          | some e' => exact hf
+      · simp only [hx, ↓reduceIte]
+        exact relateMatches_frame b tgtKey v r w
+
+/-- what the driver's `new` leaves behind, in terms of `newOne`: the instance appended to the storage holds
+    `newOne`'s dictionary, the generator is at `newOne`'s position, and a failed `newOne` is a MetaException -/
+theorem newInst_is_newOne (stream : Nat → Int) (w : World) (kind : Name) (args : List Val) (kwargs : List (Name × Val))
+    (c : Cls) (hc : findMetaclass w.classes kind = some c) :
+    (newInst stream w kind args kwargs).1.insts =
+      w.insts ++ [{ cls := fold kind, dict := (newOne stream ⟨c, args, kwargs⟩ w.nextId).1.dict }] ∧
+    (newInst stream w kind args kwargs).1.nextId = (newOne stream ⟨c, args, kwargs⟩ w.nextId).2 ∧
+    ((newOne stream ⟨c, args, kwargs⟩ w.nextId).1.ok = false → (newInst stream w kind args kwargs).2 = some .metaE) := by
+  rw [newOne_eq_newDict]
+  unfold newInst newInstWith
+  simp only [hc]
+  cases hok : (newDict (typedDefault stream) c args kwargs w.nextId).2.2.2 with
+  | false => simp
+  | true =>
+    simp only [Bool.not_true, Bool.false_eq_true, ↓reduceIte]
+    repeat' split
+    all_goals first
+      | exact ⟨rfl, rfl, by simp⟩
+      | exact ⟨(relateMatches_frame _ _ _ _ _).1, (relateMatches_frame _ _ _ _ _).2, by simp⟩
+
+/-! ### histories with the user's own next() / peek() -/
+
+theorem runHist_ids (stream : Nat → Int) : ∀ (h : List HOp) (pos : Nat),
+    (∀ c, HOp.create c ∈ h → WF c.cls) →
+    pos ≤ (runHist stream h pos).2 ∧
+    (histDefaultedIds (runHist stream h pos).1).Sublist
+      ((List.range' pos ((runHist stream h pos).2 - pos)).map fun p => some (Val.int (stream p)))
+  | [], pos, _ => by simp [runHist, histDefaultedIds]
+  | .create c :: r, pos, hwf => by
+    obtain ⟨h1, s1⟩ := newOne_ids stream c pos (hwf c (by simp))
+    obtain ⟨h2, s2⟩ := runHist_ids stream r (newOne stream c pos).2 (fun c' hc' => hwf c' (by simp [hc']))
+    simp only [runHist, histDefaultedIds, List.flatMap_cons]
+    refine ⟨Nat.le_trans h1 h2, ?_⟩
+    have hsplit : (runHist stream r (newOne stream c pos).2).2 - pos =
+        ((newOne stream c pos).2 - pos) + ((runHist stream r (newOne stream c pos).2).2 - (newOne stream c pos).2) := by
+      omega
+    have hstart : pos + ((newOne stream c pos).2 - pos) = (newOne stream c pos).2 := by omega
+    rw [hsplit, ← List.range'_append_1, List.map_append, hstart]
+    exact List.Sublist.append s1 s2
+  | .next :: r, pos, hwf => by
+    obtain ⟨h2, s2⟩ := runHist_ids stream r (pos + 1) (fun c' hc' => hwf c' (by simp [hc']))
+    simp only [runHist]
+    refine ⟨by omega, ?_⟩
+    have hlen : (runHist stream r (pos + 1)).2 - pos = ((runHist stream r (pos + 1)).2 - (pos + 1)) + 1 := by omega
+    rw [hlen, List.range'_succ, List.map_cons]
+    exact List.Sublist.cons _ s2
+  | .peek :: r, pos, hwf => by
+    simp only [runHist]
+    exact runHist_ids stream r pos (fun c' hc' => hwf c' (by simp [hc']))
+
 end Pyx.NewInst
